@@ -23,3 +23,7 @@ pub fn classify_panic(_t: &Term, _msg: &str) -> Option<String> {
 pub fn classify_rope(_clause: &str) -> Option<String> {
   None
 }
+
+pub fn classify_decode_panic(_s: &str, _msg: &str) -> Option<String> {
+  None
+}
